@@ -372,14 +372,28 @@ def _calls(stmts):
                 yield n
 
 
+CANCELISH = frozenset(["timeout", "abandoned", "canceled", "canceling"])
+
+
 def _requests_failed(prog, f, stmts):
+    """The block requests status failed, under no condition other than 'the workflow is not
+    canceled/expired/abandoned' (relative to the block)."""
+    fg = FuncGuards(prog, f)
+    outer = None
     for c in _calls(stmts):
         if callee_name(c) == "request_workflow_status" and c.args:
             try:
-                if prog.fold(c.args[0], f.module) == "failed":
-                    return True
+                if prog.fold(c.args[0], f.module) != "failed":
+                    continue
             except NotFoldable:
-                pass
+                continue
+            if outer is None:
+                outer = set(fg.atoms(stmts[0])) if stmts else set()
+            extra = [a for a in fg.atoms(c) if a not in outer]
+            extra = [a for a in extra if not (
+                a[0] == "notin" and isinstance(a[2], frozenset) and a[2] <= CANCELISH)]
+            if not extra:
+                return True
     return False
 
 
